@@ -1016,8 +1016,11 @@ class Engine:
                                              3: ci('leader_schedule_epoch', 'u64'), 4: ci('unix_timestamp', 'i64')}, lazy=False)
             st.events.append(('call', c, []))
             return EnumV('Result', 0, {0: {0: clk}})
-        if re.search(r'Pubkey as Default>::default$', c):
+        if re.search(r'Pubkey as (std::default::|core::default::)?Default>::default$', c):
             return IntV(z3.IntVal(0), 'Pubkey')
+        if re.match(r"^<anchor_lang::prelude::Interface<.*> as (std::ops::|core::ops::)?Deref>::deref$", c) and isinstance(args[0], RefV):
+            # Interface<T> -> Program<T>: a view of the same account (same key); keep the object so that `.key()` names the instruction's account
+            return args[0]
         if re.match(r'^(std::ops::)?RangeInclusive::<(\w+)>::new$', c):
             return StructV('RangeInclusive', self.ex.fresh_name('range'), {0: args[0], 1: args[1]}, lazy=False)
         if re.match(r'^(std::ops::)?RangeInclusive::<(\w+)>::contains::<', c):
